@@ -438,7 +438,7 @@ def gen_cases(tier, rng):
     quick = tier == "quick"
     fracs = FRACS_Q if quick else FRACS_T
     dimsA = [1, 2, 3, 5] if quick else [1, 2, 3, 4, 5, 7]
-    vshapes = list(grid_shapes([1, 2], dimsA)) + rng.sample(list(grid_shapes([3], dimsA)), 24 if quick else 90) + [capped_shape(rng, o, [1, 2, 3, 4, 6, 9], 4000) for o in (4, 4, 5, 5, 6) for _ in range(3 if quick else 10)]
+    vshapes = list(grid_shapes([1, 2], dimsA)) + rng.sample(list(grid_shapes([3], dimsA)), 24 if quick else 55) + [capped_shape(rng, o, [1, 2, 3, 4, 6, 9], 4000) for o in (4, 4, 5, 5, 6) for _ in range(3 if quick else 10)]
     # ---- validators
     for s in vshapes:
         n = len(s)
@@ -1454,7 +1454,7 @@ def _run(chk, rng):
             chk.sample({"entry": ENTRY[kind], "shape": list(s), "rank": str(spec), "options": {k: str(v_) for k, v_ in kw.items()},
                         "outcome": st, "observed_shapes": [list(x) for x in shapes] if shapes else str(v)[:100]})
         if st == "ok" and out is not None:
-            if kind in ("DTt", "DTr", "DParafac2", "DTucker") and cid % (16 if tier == "quick" else 6) == 0:
+            if kind in ("DTt", "DTr", "DParafac2", "DTucker") and cid % (16 if tier == "quick" else 10) == 0:
                 for mk in q_cases_for(case, out, cid):
                     qid = len(cases)
                     cases.append(mk(qid))
